@@ -5,11 +5,28 @@ from .. import core
 
 PROP = "C03"
 MODULE = "GmqttVerif.Properties.C03"
-THEOREMS = ["GmqttVerif.Limiter.poll_ids_nonzero_distinct_unmarked", "GmqttVerif.Limiter.poll_length",
-            "GmqttVerif.Limiter.used_eq_marked", "GmqttVerif.Limiter.window_bound",
-            "GmqttVerif.Limiter.release_frees", "GmqttVerif.Limiter.poll_takes_next_free",
-            "GmqttVerif.Limiter.released_id_reusable", "GmqttVerif.Limiter.poll_terminates",
-            "GmqttVerif.Limiter.used_eq_marked_Statement_false", "GmqttVerif.Limiter.window_bound_Statement_false"]
+THEOREMS = ["GmqttVerif.Limiter.poll_ids_nonzero_distinct_unmarked",
+            "GmqttVerif.Limiter.poll_length",
+            "GmqttVerif.Limiter.used_eq_marked",
+            "GmqttVerif.Limiter.window_bound",
+            "GmqttVerif.Limiter.release_frees",
+            "GmqttVerif.Limiter.poll_takes_next_free",
+            "GmqttVerif.Limiter.released_id_reusable",
+            "GmqttVerif.Limiter.poll_terminates",
+            "GmqttVerif.Limiter.used_eq_marked_Statement_false",
+            "GmqttVerif.Limiter.window_bound_Statement_false",
+            "GmqttVerif.Broker.outbound_ids_distinct",
+            "GmqttVerif.Broker.stored_ids_distinct",
+            "GmqttVerif.Broker.invariant_step",
+            "GmqttVerif.Broker.window_bound",
+            "GmqttVerif.Broker.window_closed",
+            "GmqttVerif.Broker.window_bound_run",
+            "GmqttVerif.Broker.pump_round_writes",
+            "GmqttVerif.Broker.replay_on_resume",
+            "GmqttVerif.Broker.first_send_dup0",
+            "GmqttVerif.Broker.first_send_dup0_reachable",
+            "GmqttVerif.Broker.reachable_msgs_inv"]
+EXTRA_MODULES = ['GmqttVerif.Properties.C03Broker']
 COMPS = ["limiter", "broker"]
 MAXID = 65535
 
